@@ -360,6 +360,22 @@ pub fn run(tier: Tier) -> i32 {
                 loc.viol("crc-window", format!("{}:crc", lay.leaf), hex(bytes), format!("{want:06x}"), format!("{:06x}", f.crc));
             }
             loc.outcomes.insert(u64::from(f.crc));
+            // the same bytes through a reader that hands out one byte per call (and one that gives two): the
+            // window reconstructed from the reads must still be the first 7/14 bytes
+            for short in [1usize, 2] {
+                let script = vec![crate::e3::Ans::Short(short); 64];
+                let b2 = bytes.to_vec();
+                let got = crate::common::guarded(move || {
+                    let mut r = crate::e3::Scripted::new(&b2, &script);
+                    adsb_deku::Frame::from_reader(&mut r).map(|f| f.crc)
+                });
+                loc.inc("reader_fragment_cases");
+                if let Ok(Ok(c)) = got {
+                    if c != want {
+                        loc.viol("crc-window", format!("{}:crc-fragmented-reader", lay.leaf), format!("frame={} script=S{short},S{short},...", hex(bytes)), format!("{want:06x}"), format!("{c:06x}"));
+                    }
+                }
+            }
             // the same frame followed by garbage: window must stay the first 7/14 bytes
             let mut ext = bytes.to_vec();
             ext.extend_from_slice(&[0xde, 0xad, 0xbe, 0xef, 0x01]);
